@@ -20,6 +20,7 @@ RULE = (
     '= SHA-1 of (grid, temperature).'
 )
 RULE += ' Added in rounds 6-8: nearly normalised densities; -0.0 voxels; another temperature asked of the same Volume; result retention.'
+RULE += ' Round 15: copy / deepcopy / pickle copies of the density and the free-energy volume hold the same numbers.'
 RULE += ' Round 14: the same density multiplied by 2^k, k in {-1040..900} (subnormal to huge totals), has the same free energy.'
 RULE += ' Round 13: the call is made under different floating-point error states and warning filters of the caller (np.errstate / np.seterr ignore, warnings ignored / recorded).'
 ASSUMPTIONS = ['k_B = 1.380649e-23 / 1.602176634e-19 eV/K (exact SI); relative tolerance 1e-9']
@@ -222,6 +223,18 @@ def run_unit(unit, rng, ctx):
             Fs = np.asarray(Volume(data=dsc, lattice=Lattice(m)).get_free_energy(temperature=temp).data)
         ctx.check(bool(np.all(np.isfinite(Fs))) and np.allclose(Fs[visited], Fd[visited], rtol=1e-6 if single else 1e-9, atol=(1e-6 if single else 1e-12) * kT) and bool(np.all(Fs[~visited] > Fs[visited].max())), f'{what}: the same density multiplied by 2^{k_sc} gives another free energy (finite: {bool(np.all(np.isfinite(Fs)))}, min {Fs.min()!r}, max dev on visited voxels {np.abs(Fs[visited] - Fd[visited]).max():.3e} eV)', {'data': data, 'scale': f'2^{k_sc}', 'temperature': temp})
         ctx.count('densities_rescaled_by_a_power_of_two(incl. subnormal totals)')
+    # copies of the volumes (copy / deepcopy / pickle: checkpointing an analysis, sending it to a worker) hold the
+    # same numbers, and the free energy of a copied density is the same grid
+    if unit['i'] % 5 == 1:
+        import copy
+        import pickle
+
+        how_c = str(rng.choice(['copy', 'deepcopy', 'pickle']))
+        dup = {'copy': copy.copy, 'deepcopy': copy.deepcopy, 'pickle': lambda o_: pickle.loads(pickle.dumps(o_))}[how_c]
+        F_c, vol_c = dup(F), dup(vol)
+        ctx.check(np.array_equal(np.asarray(F_c.data), Fd) and np.asarray(F_c.data).dtype == Fd.dtype, f'{what}: a {how_c} of the free-energy volume holds other numbers (finite: {bool(np.all(np.isfinite(np.asarray(F_c.data))))}, max dev {float(np.nanmax(np.abs(np.asarray(F_c.data, dtype=float) - Fd))):.3e})', wit)
+        ctx.check(np.array_equal(np.asarray(vol_c.data), np.asarray(vol.data)) and np.array_equal(np.asarray(vol_c.get_free_energy(temperature=temp).data), np.asarray(vol.get_free_energy(temperature=temp).data)), f'{what}: a {how_c} of the density volume holds other numbers or gives another free energy than the volume it was copied from', wit)
+        ctx.count(f'volumes_copied_by:{how_c}')
     nv = int(visited.sum())
     ctx.count(f'mode:{mode}')
     ctx.count('voxels_checked', data.size)
